@@ -2,6 +2,7 @@ package main
 
 import (
 	"fmt"
+	"sort"
 	"go/token"
 	"go/types"
 
@@ -130,14 +131,32 @@ func (g *VCGen) nextInstr(x *ssa.Next) {
 
 // ---------------------------------------------------------------- not yet modelled concurrency primitives
 
+func deferFlag(x *ssa.Defer) string {
+	return fmt.Sprintf("IT!defer!b%d", x.Block().Index)
+}
+
 func (g *VCGen) deferInstr(x *ssa.Defer) {
-	// only defers executed unconditionally before any loop are supported
 	for _, li := range g.loopList {
 		if li.blocks[x.Block()] {
 			panic(unsupported("defer inside a loop"))
 		}
 	}
 	g.deferred = append(g.deferred, x)
+	// a defer statement that is not executed on every path: a ghost flag records whether it was reached
+	flag := g.so.heap(deferFlag(x), "Bool")
+	g.setHeap(g.cur, flag, "true")
+}
+
+// initDeferFlags: at function entry no defer statement has been executed
+func (g *VCGen) initDeferFlags() {
+	for _, b := range g.fn.Blocks {
+		for _, in := range b.Instrs {
+			if d, ok := in.(*ssa.Defer); ok {
+				flag := g.so.heap(deferFlag(d), "Bool")
+				g.setHeap(g.cur, flag, "false")
+			}
+		}
+	}
 }
 
 func (g *VCGen) runDefers(x *ssa.RunDefers) {
@@ -147,10 +166,63 @@ func (g *VCGen) runDefers(x *ssa.RunDefers) {
 			if !blockReaches(d.Block(), x.Block()) {
 				continue // this exit is not downstream of the defer statement
 			}
-			panic(unsupported("conditional defer"))
+			// conditional defer: the call runs exactly when the defer statement was executed
+			flag := g.so.heap(deferFlag(d), "Bool")
+			guard := g.heapTerm(g.cur, flag)
+			pre := g.cur.clone()
+			origPC := g.pathCond
+			g.pathCond = and(origPC, guard)
+			g.callInstr(d, nil)
+			post := g.cur
+			pcAfter := g.pathCond
+			g.cur = g.mergeGuarded(guard, post, pre)
+			g.pathCond = and(origPC, implies(guard, pcAfter))
+			continue
 		}
 		g.callInstr(d, nil)
 	}
+}
+
+// mergeGuarded: the state that equals a when guard holds and b otherwise
+func (g *VCGen) mergeGuarded(guard string, a, b *State) *State {
+	st := &State{heaps: map[string]string{}, epoch: a.epoch}
+	names := map[string]bool{}
+	if a.epoch != b.epoch {
+		st.epoch = g.eng.nextEpoch()
+		for h := range g.so.heaps {
+			names[h] = true
+		}
+	}
+	for h := range a.heaps {
+		names[h] = true
+	}
+	for h := range b.heaps {
+		names[h] = true
+	}
+	var hs []string
+	for h := range names {
+		hs = append(hs, h)
+	}
+	sort.Strings(hs)
+	for _, h := range hs {
+		ta, tb := g.heapTerm(a, h), g.heapTerm(b, h)
+		if ta == tb {
+			st.heaps[h] = ta
+			continue
+		}
+		name := g.freshName(h + "@defer")
+		g.declare(name, g.so.heaps[h])
+		g.assume(fmt.Sprintf("(= %s (ite %s %s %s))", name, guard, ta, tb))
+		st.heaps[h] = name
+	}
+	if a.nextRef == b.nextRef {
+		st.nextRef = a.nextRef
+	} else {
+		name := g.freshConst("nextRef@defer", "Int")
+		g.assume(fmt.Sprintf("(= %s (ite %s %s %s))", name, guard, a.nextRef, b.nextRef))
+		st.nextRef = name
+	}
+	return st
 }
 
 func (g *VCGen) goInstr(x *ssa.Go)         { g.eng.concurrency.goInstr(g, x) }
